@@ -11,7 +11,7 @@ import gc
 
 from ..actors import World, make_async_source, make_async_fn, make_ref_fn, make_ref_source, FnPlan, ident
 from ..tools import TOOLS, AGGS
-from ..loop import PAUSE
+from ..loop import PAUSE, SLEEP
 from ..runner import Outcome
 from ..tools import draw_cfg, Gen, lib
 from .common import set_interrupts, COMPONENTS_BASE, run_sim, new_sim, finish_outcome
@@ -37,7 +37,7 @@ ASSUMPTIONS = [
     "gc is run at fixed points; finalisers of abandoned generators run as simulator tasks before the next op",
 ]
 PROBES = ("transient_error", "closed_directly", "closed_via_iter", "closed_by_tool", "closed_by_gc", "asend_used", "athrow_on_closed_handle",
-          "underlying_used_after_close", "tool_abandoned", "reborrowed", "handle_ladder")
+          "underlying_used_after_close", "tool_abandoned", "reborrowed", "handle_ladder", "close_during_pull")
 
 TOOL_NAMES = ("zip", "map", "filter", "filterfalse", "enumerate", "accumulate", "batched", "chain", "compress",
               "cycle", "dropwhile", "takewhile", "islice", "pairwise", "zip_longest", "tee", "groupby")
@@ -86,10 +86,11 @@ def gen(ch):
     sc.src.aclose_suspends = 0
     ops = []
     for n in range(ch.between(1, 12)):
-        kind = ch.weighted([5, 3, 2, 1, 2, 4, 1, 1, 1, 2, 1, 1, 1, 2])
+        kind = ch.weighted([5, 3, 2, 1, 2, 4, 1, 1, 1, 2, 1, 1, 1, 2, 2])
         # 0 next_b 1 next_u 2 close_b 3 close_iter_b 4 asend 5 tool 6 reborrow 7 drop+gc 8 athrow 9 aggregation
         # 10 borrow the handle itself 11 next_b hitting a transient error of the underlying 12 same via next_u
         # 13 a ladder of 2..4 handles, each borrowed from the one below: advance / close any rung in any order
+        # 14 another task is in the middle of a pull through the handle while this one closes the handle
         if kind == 13:
             depth = ch.between(2, 4)
             ops.append((13, depth, tuple((ch.weighted([3, 2]), ch.draw(depth)) for _ in range(ch.between(1, 7)))))
@@ -183,7 +184,7 @@ def execute(st, ctx):
         for i, op in enumerate(sc.ops):
             kind = op[0]
             name = ("next_b", "next_u", "close_b", "close_iter_b", "asend", "tool", "reborrow", "drop_gc",
-                    "athrow", "agg", "reborrow_handle", "fault_next_b", "fault_next_u", "ladder")[kind]
+                    "athrow", "agg", "reborrow_handle", "fault_next_b", "fault_next_u", "ladder", "close_during_pull")[kind]
             if kind == 0:
                 got = await do_next(b)
                 exp = expect_next(True)
@@ -388,6 +389,45 @@ def execute(st, ctx):
                             model["open"] = False
                     else:
                         exp = ("stop",)
+            elif kind == 14:
+                # a second task pulls through the handle and is (if the underlying suspends) still inside that pull
+                # when this task closes the handle: the library may refuse the close ("already running") - then the
+                # handle simply stays open - or perform it; either way the pull in flight delivers what it was after
+                side_res = []
+
+                started = []
+
+                async def side(handle=b):
+                    started.append(1)
+                    side_res.append(await do_next(handle))
+
+                exp_pull = expect_next(True)
+                side_task = sim.spawn(side(), "side")
+                for _ in range(200):
+                    # (whoever the scheduler picks: the pull has begun before the close is attempted)
+                    if started:
+                        break
+                    await sim.suspend(PAUSE, None, "history")
+                in_flight = not side_task.done
+                try:
+                    await b.aclose()
+                    closed_now = True
+                except RuntimeError:
+                    closed_now = False
+                for _ in range(200):
+                    if side_task.done:
+                        break
+                    await sim.suspend(SLEEP, 20, "history")  # (virtual time must pass for a sleeping source)
+                if in_flight:
+                    out.probes["close_during_pull"] = 1
+                if closed_now:
+                    model["open"] = False
+                    model["closed"] = True
+                    out.probes["closed_directly"] = 1
+                got = ("close_during_pull", side_res[0] if side_res else None, closed_now if not in_flight else "any")
+                exp = ("close_during_pull", exp_pull, True if not in_flight else "any")
+                if in_flight and closed_now and side_res and side_res[0] != exp_pull:
+                    pass
             elif kind == 13:
                 _, depth, steps = op
                 out.probes["handle_ladder"] = 1
